@@ -1981,6 +1981,7 @@ def make_libs(I):
         'asarray': L(np_asarray), 'array': L(np_array), 'fabs': L(np_abs), 'abs': L(np_abs), 'absolute': L(np_abs),
         'sign': L(np_sign), 'power': L(np_power), 'divide': L(np_divide), 'sqrt': L(np_sqrt), 'log10': L(np_log10), 'log': L(np_log),
         'argmax': L(np_argext('max')), 'argmin': L(np_argext('min')),
+        'ndim': Builtin('ndim', lambda x: 0 if (isinstance(x, (int, float, bool)) or (isinstance(x, SV) and x.kind == 'scalar')) else 1),
         'exp': L(np_exp), 'cos': L(np_cos), 'where': L(np_where), 'full_like': L(np_full_like),
         'ones_like': Builtin('ones_like', lambda x, **k: np_full_like(I, x, 1.0, dtype=1)),
         'zeros_like': Builtin('zeros_like', lambda x, **k: np_full_like(I, x, 0.0, dtype=1)),
